@@ -3,8 +3,15 @@
 // Contracts for package mapper, read by /verif/govc. Comment-only file.
 package mapper
 
+// fieldOf(model, column): the value of the struct field mapped to the column
+// (reflection: trusted to be a pure function of the model and the column name)
+//@ ghost func fieldOK(model.Model, string) bool
+//@ ghost func fieldOf(model.Model, string) interface{}
 //@ func (*Info).FieldByColumn
+//@ trusted "reflect.Value.FieldByName(...).Interface() of the model; reads only"
 //@ modifies nothing
+//@ ensures (result1 == nil) == fieldOK(i.Obj, column)
+//@ ensures_ok result0 == fieldOf(i.Obj, column)
 
 // NewInfo (C09): a struct field is accepted for a column only when its Go type
 // is exactly the column's native type.
